@@ -17,17 +17,12 @@ from .unescape import unescape_string
 StateFn: TypeAlias = Callable[[], Optional["StateFn"]]
 
 RE_ASSIGN_OP = re.compile(r"=")  # TODO: scan until ch?
-RE_DROP = re.compile(r"DROP")
 RE_GRAMMAR_DOC = re.compile(r"//!")
 RE_IDENTIFIER = re.compile(r"[_a-zA-Z][_a-zA-Z0-9]*")
 RE_INTEGER = re.compile(r"-?[0-9]+")
 RE_MODIFIER = re.compile(r"[_@\$!]")
 RE_NEWLINE = re.compile(r"\r?\n")
 RE_NUMBER = re.compile(r"[0-9]+")
-RE_PEEK = re.compile(r"PEEK")
-RE_PEEK_ALL = re.compile(r"PEEK_ALL")
-RE_POP = re.compile(r"POP")
-RE_POP_ALL = re.compile(r"POP_ALL")
 RE_PUSH = re.compile(r"PUSH")
 RE_PUSH_LITERAL = re.compile(r"PUSH_LITERAL")
 RE_RANGE_OP = re.compile(r"\.\.")
@@ -39,6 +34,14 @@ RE_BLOCK_COMMENT = re.compile(r"/\*(?:[^*/]|\*(?!/)|/(?!\*)|(?R))*\*/")
 
 RE_ESCAPE = re.compile(r"[\\\"rnt0']|x[0-9a-fA-F]{2}|u\{[0-9a-fA-F]{2,6}\}")
 RE_CHAR = re.compile(rf"'(?:\\(?:{RE_ESCAPE.pattern})|[^\\])'")
+
+KEYWORDS = {
+    "PEEK": TokenKind.PEEK,
+    "PEEK_ALL": TokenKind.PEEK_ALL,
+    "POP": TokenKind.POP,
+    "POP_ALL": TokenKind.POP_ALL,
+    "DROP": TokenKind.DROP,
+}
 
 
 def tokenize(grammar: str) -> list[Token]:
@@ -293,24 +296,14 @@ class Scanner:
 
             return True
 
-        if value := self.scan(RE_PEEK_ALL):
-            self.emit(TokenKind.PEEK_ALL, value)
-            return True
+        if value := self.scan(RE_IDENTIFIER):
+            # The stack keywords are identifiers to pest's meta-grammar too.
+            kind = KEYWORDS.get(value, TokenKind.IDENTIFIER)
+            self.emit(kind, value)
 
-        if value := self.scan(RE_POP_ALL):
-            self.emit(TokenKind.POP_ALL, value)
-            return True
+            if kind != TokenKind.PEEK:
+                return True
 
-        if value := self.scan(RE_POP):
-            self.emit(TokenKind.POP, value)
-            return True
-
-        if value := self.scan(RE_DROP):
-            self.emit(TokenKind.DROP, value)
-            return True
-
-        if value := self.scan(RE_PEEK):
-            self.emit(TokenKind.PEEK, value)
             if self.peek() == "[":
                 self.emit(TokenKind.LBRACKET, self.next())
             else:
@@ -336,10 +329,6 @@ class Scanner:
             else:
                 self.error("expected a closing paren")
 
-            return True
-
-        if value := self.scan(RE_IDENTIFIER):
-            self.emit(TokenKind.IDENTIFIER, value)
             return True
 
         if self.accept_string() or self.accept_ci_string():
